@@ -54,20 +54,23 @@ Definition Pok (P : parts) : Prop := forall i, okx (px P i).
 
 (* insertion into a subtree that is completely in order keeps it completely in order *)
 Lemma padd_full : forall fuel p t P pt t' P', p <> [] -> padd fuel p t P pt = Some (t', P') ->
+  PathModel.pbp X xd P pt = [] -> ~ In pt (idx t p) -> PathModel.pbp X xd P' pt <> [] ->
   full P t p -> Pok P -> ins p (px P pt) = true -> fuel + length p = S L -> full P' t' p.
 Proof.
-  induction fuel as [|f IH]; intros p t P pt t' P' Hp H F Hok Hin Hf.
+  induction fuel as [|f IH]; intros p t P pt t' P' Hp H Hclr Hfresh Hins F Hok Hin Hf.
   - destruct t as [[q|n oct]|]; cbn in H; try discriminate. injection H as <- <-.
     constructor. rewrite (px_setbp X xd). exact Hin.
   - assert (Lp : length p <= L) by lia.
-    pose proof (padd_data X xd octf same Hoct8 (S f) p t P pt t' P' Hp (full_free _ _ _ F) H) as (Ft' & _ & Xeq & Perm & _ & _).
+    pose proof (padd_data X xd octf same Hoct8 (S f) p t P pt t' P' Hp (full_free _ _ _ F) H Hclr Hfresh Hins) as (Ft' & _ & Xeq & Perm & _ & _).
     destruct t as [[q|n oct]|].
     + cbn [PathModel.padd] in H.
       set (o1 := octf p (px P q)) in *. set (o2 := octf p (px P pt)) in *.
-      destruct (Nat.eqb o1 o2 && same (px P pt) (px P q)) eqn:G; [discriminate|].
+      destruct (Nat.eqb o1 o2 && same (px P pt) (px P q)) eqn:G; [injection H as <- <-; congruence|].
       set (oct0 := upd empty8 o1 (Some (Leaf q))) in *. set (P1 := setbp X xd P q (p ++ [o1])) in *.
       destruct (padd f (p ++ [o2]) (nth o2 oct0 None) P1 pt) as [[d P2]|] eqn:A; [|discriminate].
       injection H as <- <-.
+      assert (Hqpt0 : q <> pt) by (intro e; apply Hfresh; unfold idx; cbn; left; exact e).
+      assert (Hclr1 : PathModel.pbp X xd P1 pt = []) by (unfold P1; rewrite (pbp_setbp_other X xd) by exact Hqpt0; exact Hclr).
       assert (Ho1 : o1 < 8) by (apply Hoct8; exact Hp). assert (Ho2 : o2 < 8) by (apply Hoct8; exact Hp).
       assert (L0 : length oct0 = 8) by (unfold oct0; rewrite upd_len; reflexivity).
       inversion F as [|? ? Hq|]; subst.
@@ -79,8 +82,10 @@ Proof.
       { unfold oct0. rewrite nth_upd_cases. destruct (Nat.eqb o1 o2 && Nat.ltb o1 (length empty8)) eqn:E.
         - apply andb_prop in E. destruct E as [E _]. apply Nat.eqb_eq in E. rewrite <- E. constructor. rewrite X1. exact Hq1.
         - rewrite nth_empty8. constructor. }
+      assert (Hfresh1 : ~ In pt (idx (nth o2 oct0 None) (p ++ [o2]))).
+      { unfold oct0. rewrite nth_upd_cases. destruct (Nat.eqb o1 o2 && Nat.ltb o1 (length empty8)); [cbn; intros [e|[]]; congruence|rewrite nth_empty8; cbn; tauto]. }
       assert (Fd : full P2 d (p ++ [o2])).
-      { eapply IH; [exact Hp2|exact A|exact Fc| | |].
+      { eapply IH; [exact Hp2|exact A|exact Hclr1|exact Hfresh1|exact Hins|exact Fc| | |].
         - intro i. rewrite X1. apply Hok.
         - rewrite X1. exact Hpt1.
         - rewrite app_length. cbn. lia. }
@@ -95,12 +100,15 @@ Proof.
            ++ rewrite nth_empty8. constructor.
     + cbn [PathModel.padd] in H. set (o := octf p (px P pt)) in *.
       destruct (padd f (p ++ [o]) (nth o oct None) P pt) as [[d P1]|] eqn:A; [|discriminate].
-      injection H as <- <-.
+      destruct (PathModel.pbp X xd P1 pt) as [|b0 bs] eqn:Ebp; injection H as <- <-; [congruence|].
       inversion F as [| |? ? ? Lo _ Cn N2 Ch]; subst.
       assert (Ho : o < 8) by (apply Hoct8; exact Hp).
       assert (Hp2 : p ++ [o] <> []) by (destruct p; discriminate).
+      assert (Hfresh1 : ~ In pt (idx (nth o oct None) (p ++ [o]))).
+      { intro Hi. apply Hfresh. unfold idx in *. rewrite lvo_node.
+        eapply Permutation_in; [apply Permutation_map, Permutation_sym, (lvl_split p oct o); lia|]. rewrite map_app. apply in_or_app. left. exact Hi. }
       assert (Fd : full P1 d (p ++ [o])).
-      { eapply IH; [exact Hp2|exact A|apply Ch|exact Hok| |rewrite app_length; cbn; lia].
+      { eapply IH; [exact Hp2|exact A|exact Hclr|exact Hfresh1|congruence|apply Ch|exact Hok| |rewrite app_length; cbn; lia].
         apply Hroute; [apply Hok|exact Lp|exact Hin]. }
       constructor; [rewrite upd_len; exact Lo|exact Lp| | |].
       * unfold idx in Perm. rewrite !lvo_node, !lvl_flat in Perm. apply Permutation_length in Perm. cbn [length] in Perm. rewrite Perm. lia.
@@ -122,34 +130,39 @@ Qed.
 
 (* ... and keeps the walk invariant of a subtree below a real cell, whatever the stack position *)
 Lemma padd_inv : forall fuel pi p t P pt t' P', p <> [] -> padd fuel p t P pt = Some (t', P') ->
+  PathModel.pbp X xd P pt = [] -> ~ In pt (idx t p) -> PathModel.pbp X xd P' pt <> [] ->
   inv P pi t p -> Pok P -> ins p (px P pt) = true -> fuel + length p = S L -> inv P' pi t' p.
 Proof.
-  induction fuel as [|f IH]; intros pi p t P pt t' P' Hp H I Hok Hin Hf;
-    pose proof (padd_data X xd octf same Hoct8 _ p t P pt t' P' Hp (inv_free _ _ _ _ I Hp) H) as (Ft' & _ & Xeq & _).
+  induction fuel as [|f IH]; intros pi p t P pt t' P' Hp H Hclr Hfresh Hins I Hok Hin Hf;
+    pose proof (padd_data X xd octf same Hoct8 _ p t P pt t' P' Hp (inv_free _ _ _ _ I Hp) H Hclr Hfresh Hins) as (Ft' & _ & Xeq & _).
   - inversion I as [? ? Fr|]; subst; [constructor; exact Ft'|]. cbn in H. discriminate.
   - inversion I as [? ? Fr|k pi' n oct ? Lo Fl Ik Frr]; subst; [constructor; exact Ft'|].
     assert (Lo8 : length oct = 8) by (destruct p; [congruence|exact Lo]).
     assert (Lp : length p <= L) by lia.
     cbn [PathModel.padd] in H. set (o := octf p (px P pt)) in *.
     destruct (padd f (p ++ [o]) (nth o oct None) P pt) as [[d P1]|] eqn:A; [|discriminate].
-    injection H as <- <-.
+    destruct (PathModel.pbp X xd P1 pt) as [|b0 bs] eqn:Ebp; injection H as <- <-; [congruence|].
     assert (Ho : o < 8) by (apply Hoct8; exact Hp).
     assert (Hp2 : p ++ [o] <> []) by (destruct p; discriminate).
+    assert (Hfresh1 : ~ In pt (idx (nth o oct None) (p ++ [o]))).
+    { intro Hi. apply Hfresh. unfold idx in *. rewrite lvo_node.
+      eapply Permutation_in; [apply Permutation_map, Permutation_sym, (lvl_split p oct o); lia|]. rewrite map_app. apply in_or_app. left. exact Hi. }
+    assert (Hins1 : PathModel.pbp X xd P1 pt <> []) by congruence.
     assert (Hin2 : ins (p ++ [o]) (px P pt) = true) by (apply Hroute; [apply Hok|exact Lp|exact Hin]).
     assert (Hf2 : f + length (p ++ [o]) = S L) by (rewrite app_length; cbn; lia).
     constructor.
     + rewrite upd_len. exact Lo.
     + intros j Hj. rewrite nth_upd_cases. destruct (Nat.eqb o j && Nat.ltb o (length oct)) eqn:E.
       * apply andb_prop in E. destruct E as [E _]. apply Nat.eqb_eq in E. subst j.
-        eapply padd_full; [exact Hp2|exact A|apply Fl; exact Hj|exact Hok|exact Hin2|exact Hf2].
+        eapply padd_full; [exact Hp2|exact A|exact Hclr|exact Hfresh1|exact Hins1|apply Fl; exact Hj|exact Hok|exact Hin2|exact Hf2].
       * eapply full_ext; [exact Xeq|apply Fl; exact Hj].
     + rewrite nth_upd_cases. destruct (Nat.eqb o k && Nat.ltb o (length oct)) eqn:E.
       * apply andb_prop in E. destruct E as [E _]. apply Nat.eqb_eq in E. subst k.
-        eapply IH; [exact Hp2|exact A|exact Ik|exact Hok|exact Hin2|exact Hf2].
+        eapply IH; [exact Hp2|exact A|exact Hclr|exact Hfresh1|exact Hins1|exact Ik|exact Hok|exact Hin2|exact Hf2].
       * eapply inv_ext; [exact Xeq|exact Ik].
     + intros j Hj. rewrite nth_upd_cases. destruct (Nat.eqb o j && Nat.ltb o (length oct)) eqn:E.
       * apply andb_prop in E. destruct E as [E _]. apply Nat.eqb_eq in E. subst j.
-        pose proof (padd_data X xd octf same Hoct8 f (p ++ [o]) _ P pt d P1 Hp2 (Frr o Hj) A) as (Fd & _). exact Fd.
+        pose proof (padd_data X xd octf same Hoct8 f (p ++ [o]) _ P pt d P1 Hp2 (Frr o Hj) A Hclr Hfresh1 Hins1) as (Fd & _). exact Fd.
       * apply Frr. exact Hj.
 Qed.
 
@@ -165,19 +178,28 @@ Proof.
     { destruct (Nat.lt_ge_cases o (length oct)) as [h|h]; [exact h|]. rewrite nth_overflow in Hg by exact h. destruct s; discriminate. }
     cbn [PathModel.padd] in H. set (o2 := octf p (px P pt)) in *.
     destruct (padd f (p ++ [o2]) (nth o2 oct None) P pt) as [[d P1]|] eqn:A; [|discriminate].
-    injection H as <- <-. cbn [tset PathModel.padd]. fold o2.
+    destruct (PathModel.pbp X xd P1 pt) as [|b0 bs] eqn:Ebp; injection H as <- <-; cbn [tset PathModel.padd]; fold o2.
+    { (* refused below: nothing changes, with or without the hole *)
+      destruct (Nat.eq_dec o2 o) as [e|ne].
+      - subst o. assert (Hin2 : ins (p ++ [o2]) (px P pt) = true) by (apply Hroute; [exact Hokx|lia|exact Hin]).
+        destruct s as [|o' s'].
+        + rewrite Hin2 in Hout. discriminate.
+        + rewrite nth_upd_eq by exact Hol.
+          rewrite (IH (p ++ [o2]) (nth o2 oct None) P pt d P1 (o' :: s') q0 A ltac:(discriminate) Hg);
+            [rewrite Ebp; reflexivity|rewrite <- app_assoc; exact Hout|exact Hin2|exact Hokx|rewrite app_length; cbn; lia].
+      - rewrite nth_upd_ne by (intro; apply ne; congruence). rewrite A, Ebp. reflexivity. }
     destruct (Nat.eq_dec o2 o) as [e|ne].
     + subst o. assert (Hin2 : ins (p ++ [o2]) (px P pt) = true) by (apply Hroute; [exact Hokx|lia|exact Hin]).
       destruct s as [|o' s'].
       * rewrite Hin2 in Hout. discriminate.
       * rewrite nth_upd_eq by exact Hol.
         rewrite (IH (p ++ [o2]) (nth o2 oct None) P pt d P1 (o' :: s') q0 A ltac:(discriminate) Hg).
-        -- rewrite upd_upd_same. rewrite nth_upd_eq by exact Hol. rewrite upd_upd_same. reflexivity.
+        -- rewrite Ebp. rewrite upd_upd_same. rewrite nth_upd_eq by exact Hol. rewrite upd_upd_same. reflexivity.
         -- rewrite <- app_assoc. exact Hout.
         -- exact Hin2.
         -- exact Hokx.
         -- rewrite app_length. cbn. lia.
-    + rewrite nth_upd_ne by (intro; apply ne; congruence). rewrite A.
+    + rewrite nth_upd_ne by (intro; apply ne; congruence). rewrite A, Ebp.
       rewrite nth_upd_ne by exact ne. rewrite upd_upd_comm by (intro; apply ne; congruence). reflexivity.
 Qed.
 End PC.
